@@ -302,9 +302,21 @@ func (d *dumper) chain(p token.Pos) *sx.Node {
 	nodes, _ := astutil.PathEnclosingInterval(d.file, p, p)
 	l := sx.L()
 	for _, n := range nodes {
+		kind := ""
 		switch n.(type) {
-		case *ast.GenDecl, *ast.FuncDecl, *ast.TypeSpec, *ast.Field, *ast.File:
-			l.List = append(l.List, sx.N(d.nodeID(n)))
+		case *ast.GenDecl:
+			kind = "gendecl"
+		case *ast.FuncDecl:
+			kind = "funcdecl"
+		case *ast.TypeSpec:
+			kind = "typespec"
+		case *ast.Field:
+			kind = "field"
+		case *ast.File:
+			kind = "file"
+		}
+		if kind != "" {
+			l.List = append(l.List, sx.L(sx.N(d.nodeID(n)), sx.A(kind)))
 		}
 	}
 	return l
